@@ -201,6 +201,16 @@ def oracle(case, obs, a):
                 f"{S} shots but only {nd} distinct noise realisations (generator start states {a['distinct_start']}, first outputs "
                 f"{a['distinct_peek']}, Born vectors {a['distinct_probs']}); shots with identical realisation: {shared[:6]}"
                 f"{' ...' if len(shared) > 6 else ''}; {a['workers_used']} worker process(es)")
+    sec = obs.get("second")
+    if sec:
+        if sec["exception"]:
+            return ("raised", f"a second run of the same simulator raised {sec['exception']}")
+        first = {tuple(r["peek"]) for r in obs["records"]} | {r["start"] for r in obs["records"]}
+        rep = sorted(r["shot"] for r in sec["records"] if tuple(r["peek"]) in first or r["start"] in first)
+        if rep:
+            return ("shots-share-noise-realisation",
+                    f"a second run of the same simulator in the same process (no reseeding in between) replays noise realisations of the "
+                    f"first run: {len(rep)} of its {len(sec['records'])} shots start from a generator state a shot of the first run started from")
     if a["problems"]:
         return None                       # not a property failure by itself: reported as a broken tie below
     if a.get("overlap"):
@@ -324,6 +334,12 @@ def gen_cases(ctx):
         for cpu in rng.sample(CPUS[1:], 2):
             cases.append(mk("par", S, cpu, seed=seed, family=f"par-fork-same-seed:{S}"))
         cases.append(mk("seq", S, seed=seed, family=f"par-fork-same-seed:{S}"))
+    # two runs of one simulator in one process without reseeding in between: the second run is new noise
+    for mode, S, cpu in ([("par", 5, 4), ("par", 9, 3), ("seq", 4, None)] if not ctx.thorough else
+                         [("par", 3, 4), ("par", 5, 4), ("par", 9, 3), ("par", 16, 10), ("seq", 2, None), ("seq", 7, None)]):
+        c = mk(mode, S, cpu, seed=rng.randrange(2 ** 31), circ=rng.choice(list(CIRCUITS)), family="run-twice")
+        c["again"] = True
+        cases.append(c)
     # spawn start method (new interpreters: slow)
     sp = [(2, 1), (5, 4), (9, 3)] if not ctx.thorough else [(1, 1), (2, 1), (3, 4), (5, 4), (9, 3), (12, 15), (24, 15), (17, 7), (40, 10)]
     for S, cpu in sp:
@@ -338,7 +354,7 @@ def gen_malformed(ctx):
 
 
 def public(case):
-    return {k: case[k] for k in ("mode", "S", "cpu", "seed", "circ", "nq", "ops", "start") if k in case}
+    return {k: case[k] for k in ("mode", "S", "cpu", "seed", "circ", "nq", "ops", "start", "again") if k in case}
 
 
 def summary(case, obs, a):
